@@ -639,7 +639,7 @@ _REPLAY = ("the replay step on the REAL runner body with its nested runner calls
            "postponed, each with its OWN setup and cleanup; commands for B stay postponed in order; at the root they are discarded "
            "through their own setup+cleanup without running, the buffer is empty and the counter reset")
 for k, tiers_root, tiers_nested in [(1, ("thorough",), ("quick", "thorough")), (2, ("quick", "thorough"), ("thorough",)),
-                                    (3, ("thorough",), ("thorough",))]:
+                                    (3, ("quick", "thorough"), ("thorough",))]:
     for root, tiers in ((True, tiers_root), (False, tiers_nested)):
         OBLIGATIONS.append(_runner(
             f"runner.replay_{k}_{'root' if root else 'nested'}", f"runner_step_replay_{k}_{'root' if root else 'nested'}",
@@ -739,7 +739,7 @@ _QUICK_ONLY_FOR = {
     "desp.witness": ["C12"], "ent.witness": ["C12"], "bundle.reactor_types": ["C06", "C16"],
     "rc.broadcast_0_2": ["C01", "C05"], "rc.broadcast_2_1": ["C01", "C05", "C03"],
     # runner steps / command application / setup-cleanup pairs (measured 25-150 s each)
-    "runner.replay_1_nested": ["C09", "C12"], "runner.replay_2_root": ["C02", "C11", "C05"],
+    "runner.replay_1_nested": ["C09"], "runner.replay_2_root": ["C02", "C11", "C05"], "runner.replay_3_root": ["C12"],
     "runner.missing_root": ["C02", "C18"], "runner.entity_without_system": ["C11", "C05"],
     "runner.busy_nested": ["C02", "C09", "C12"], "runner.plain_run": ["C02", "C13", "C04", "C09"], "runner.witness": ["C02", "C09"],
     "cmd.apply_system_command": ["C02"], "cmd.apply_event_command": ["C05", "C12"], "cmd.apply_reaction_resource": ["C02"],
